@@ -104,3 +104,9 @@ Definition n_print : text := [112;114;105;110;116]%N.
 Definition hidden_body : list node :=
   [NScope false [n_x] [EName n_x] [NExprs [EName n_x]];
    NExprs [ECall (EName n_print) [ECall (EName n_g) []; EAttr (EName n_la) n_y]]].
+
+(* the module m imports itself:  import m / import la  — body uses m.g and la.x, resp. also the bare m *)
+Definition n_m : text := [109%N].
+Definition self_stmts : list stmt := [st (Normal [([n_m], None)]); st (Normal [([n_la], None)])].
+Definition self_used : list dotted := [[n_m; n_g]; [n_la; n_x]].
+Definition self_used_bare : list dotted := [[n_m]; [n_m; n_g]; [n_la; n_x]].
